@@ -11,6 +11,12 @@ Verdict(x) ==
        IF ~r.ok THEN "unterminated-or-not-a-literal"
        ELSE IF r.end # Len(x.text) THEN "ends-early"
        ELSE IF r.val # x.value THEN "wrong-value" ELSE "ok"
+  ELSE IF x.kind = "var"
+  THEN LET r == ScanVar(x.text) IN
+       IF ~r.ok THEN "not-a-variable"
+       ELSE IF r.end # Len(x.text) THEN "ends-early"
+       ELSE IF r.sys # (x.style = "sys") THEN "wrong-kind"
+       ELSE IF r.name # x.value THEN "wrong-name" ELSE "ok"
   ELSE LET r == ScanPath(x.text) IN
        IF ~r.ok THEN "not-a-path" ELSE IF r.parts # x.parts THEN "wrong-parts" ELSE "ok"
 
